@@ -65,8 +65,8 @@ def is_positive_scalar(t):
 
 @register_qbytestensor_op([torch.ops.aten._to_copy, torch.ops.aten.to])
 def _to_copy(op, t, dtype=None, **kwargs):
-    if dtype is not None and not dtype.is_floating_point:
-        # A quantized Tensor can only be expressed in a float dtype: convert the dequantized values
+    if dtype is not None and (not dtype.is_floating_point or dtype.itemsize == 1):
+        # A quantized Tensor can only be expressed in a float dtype able to hold its scale: convert the dequantized values
         return op(t.dequantize(), dtype=dtype, **kwargs)
     # For data, ignore dtype and use the inner type instead
     out_data = op(t._data, dtype=t._data.dtype, **kwargs)
